@@ -60,7 +60,7 @@ def run(tier: str) -> int:
         else:
             mode = r.choice(["app", "app", "sig"])
             ver = r.choice([2, 3, 4, 5, 6, 7, 8, 9, 10])
-            g = G(r, Cfg(mode=mode, version=ver, subs=0, max_depth=r.choice([2, 3, 4, 5]), max_stmts=r.choice([2, 4, 6])))
+            g = G(r, Cfg(mode=mode, version=ver, subs=0, max_depth=r.choice([2, 3, 4, 5]), max_stmts=r.choice([2, 4, 6]), wide=r.random() < 0.3))
             p = g.program()
             for k, v in g.stats.items():
                 gstats[k.split(":")[0]] += v
